@@ -397,12 +397,19 @@ def part_c(ctx):
                      ("kde_scatter_gauss", lambda: ds.get_kde_scatter("area_um", "deform",
                                                                       kde_type="gauss")),
                      ("downsampled", lambda: ds.get_downsampled_scatter("area_um", "deform", 5)[0]),
+                     ("downsampled_mask", lambda: ds.get_downsampled_scatter(
+                         "area_um", "deform", 5, ret_mask=True)[2]),
+                     ("downsampled_y", lambda: ds.get_downsampled_scatter(
+                         "area_um", "deform", 7, ret_mask=True)[1]),
                      ("kde_contour", lambda: ds.get_kde_contour("area_um", "deform")[2])]:
         try:
             r1 = fn()
             snap = np.array(r1, copy=True)
             try:
-                r1[...] = -1
+                if r1.dtype == bool:
+                    r1[...] = ~r1
+                else:
+                    r1[...] = -1
             except ValueError:
                 pass
             r2 = fn()
